@@ -81,6 +81,9 @@ func (g *Gen) callCommon(in *ssa.Call, common *ssa.CallCommon, args []*SV, st *S
 	key, callee := g.calleeKey(common)
 	// caller's at-call assertions
 	for _, ac := range g.con.AtCalls {
+		if ac.AtText != "" {
+			continue
+		}
 		if key != "" && (strings.HasSuffix(key, "."+ac.Callee) || strings.HasSuffix(key, "/"+ac.Callee) || key == ac.Callee) {
 			env := g.envAt(st, nil)
 			// expose callee arguments as $0,$1,...
@@ -642,6 +645,9 @@ func (g *Gen) copyCall(in *ssa.Call, common *ssa.CallCommon, args []*SV, st *Sta
 	newE := g.freshConst("copy.E", hs)
 	g.addFact(fmt.Sprintf("(and (forall ((r! Int)) (! (=> (not (= r! (s-ref %[1]s))) (= (select %[2]s r!) (select %[3]s r!))) :pattern ((select %[2]s r!)))) (forall ((j! Int)) (! (= (select (select %[2]s (s-ref %[1]s)) j!) (ite (and (<= (s-off %[1]s) j!) (< j! (+ (s-off %[1]s) %[4]s))) %[5]s (select (select %[3]s (s-ref %[1]s)) j!))) :pattern ((select (select %[2]s (s-ref %[1]s)) j!)))))",
 		d.S, newE, E, n, fmt.Sprintf(src, "(- j! (s-off "+d.S+"))")))
+	// the same frame as quantifier-free instances for the light queries
+	g.presRels = append(g.presRels, presRel{key: k, cur: newE, old: E, reach: "true",
+		except: fmt.Sprintf("(and (= r! (s-ref %[1]s)) (<= (s-off %[1]s) j!) (< j! (+ (s-off %[1]s) %[2]s)))", d.S, n)})
 	// n == 0: heap unchanged (also covers nil destination)
 	st.heaps[k] = g.nameHeap(k, hs, "(ite (= "+n+" 0) "+E+" "+newE+")")
 	if in != nil {
